@@ -121,6 +121,10 @@ class Evaluator:
             p = e["path"]
             if p.endswith("Option::None"):
                 return ("none",)
+            if p in self.consts and isinstance(self.consts[p], tuple):
+                return self.consts[p]
+            if p in self.consts and isinstance(self.consts[p], str):
+                return ("str", self.consts[p])
             if p in self.consts and isinstance(self.consts[p], bool):
                 return ("bool", self.consts[p])
             if p in self.consts and isinstance(self.consts[p], int):
@@ -390,6 +394,8 @@ class Evaluator:
             return ("ok", self.ev(e["args"][0], env))
         if e.get("ctor", "").endswith("Result::Err"):
             return ("err", self.ev(e["args"][0], env))
+        if e.get("ctor") and e["ctor"] not in self.atoms:
+            return ("ctor", e["ctor"]) + tuple(self.ev(a, env) for a in e["args"])
         if "f" in e and not (e.get("resolved") or e.get("callee")):
             key = "call:" + str(hir.place_str(e["f"]))
             if key in self.atoms:
@@ -439,6 +445,25 @@ class Evaluator:
                 return ("bool", o[0] == "some")
             if short == "is_none":
                 return ("bool", o[0] == "none")
+            if o[0] in ("some", "none"):
+                if short == "map":
+                    return ("some", self.apply(args[1], [o[1]])) if o[0] == "some" else o
+                if short == "and_then":
+                    return self.apply(args[1], [o[1]]) if o[0] == "some" else o
+                if short == "map_or":
+                    return self.apply(args[2], [o[1]]) if o[0] == "some" else args[1]
+                if short == "map_or_else":
+                    return self.apply(args[2], [o[1]]) if o[0] == "some" else self.apply(args[1], [])
+                if short == "is_some_and":
+                    return self.apply(args[1], [o[1]]) if o[0] == "some" else ("bool", False)
+                if short == "unwrap_or_else":
+                    return o[1] if o[0] == "some" else self.apply(args[1], [])
+                if short == "filter":
+                    return o if o[0] == "some" and self.truth(self.apply(args[1], [o[1]])) else ("none",)
+                if short == "or":
+                    return o if o[0] == "some" else args[1]
+                if short == "ok_or":
+                    return ("ok", o[1]) if o[0] == "some" else ("err", args[1])
         if cal.startswith("core::result::Result::<T, E>::"):
             r = args[0]
             if r[0] in ("ok", "err"):
